@@ -302,6 +302,7 @@ func rebuild(f *Filt) *Filt {
 
 func runC07(c *Ctx) {
 	bigBatches(c, "C07")
+	refilterHop(c)
 	fam := filterFamily()
 	// two conjunctions that differ only in a non-comparable (FN) child: never equal
 	fam = append(fam, and(fn(fam[2]), fam[5]), and(fn(fam[3]), rebuild(fam[5])))
